@@ -141,7 +141,7 @@ func (r *runner) scenarioPoor(ctx sdk.Context, maxOrders int, all bool) error {
 	r.poorStep(ctx, p, create(2, 150, 250, bi("700000"), bi("0"), "poor/create-above-range"), pick()+1)
 	// increase of the in-range position by its poor owner
 	for _, q := range r.w.C02Positions(ctx, p) {
-		if q.LowerTick == -100 && r.w.C02UserIndex(q.Address) == 2 {
+		if q.LowerTick == -100 && r.ownerIndex(q.Address) == 2 {
 			o := amm.Op{Kind: "increase", Sender: 2, Pid: q.Id, Base: bi("50000"), Quote: bi("50000"), MinBase: big.NewInt(0), MinQuote: big.NewInt(0), Tag: "poor/increase"}
 			r.poorStep(ctx, p, o, -1)
 			break
@@ -152,7 +152,7 @@ func (r *runner) scenarioPoor(ctx sdk.Context, maxOrders int, all bool) error {
 	// claiming only credits the claimer: a penniless owner must still be able to claim
 	var mine []uint64
 	for _, q := range r.w.C02Positions(ctx, p) {
-		if r.w.C02UserIndex(q.Address) == 2 {
+		if r.ownerIndex(q.Address) == 2 {
 			mine = append(mine, q.Id)
 		}
 	}
